@@ -30,6 +30,19 @@ variable {K : Type} [Add K] [Sub K] [Mul K] [Div K] [Neg K] [OfNat K 0] [OfNat K
 '''
 
 
+def merge(t):
+    """a decision tree with branches that do not change the result merged (e.g. a comparison that only triggers a warning)"""
+    if t[0] == 'leaf': return t
+    l, r = merge(t[2]), merge(t[3])
+    if repr_tree(l) == repr_tree(r): return l
+    return ('ite', t[1], l, r)
+
+
+def repr_tree(t):
+    if t[0] == 'leaf': return repr(t[1].t if isinstance(t[1], Sym) else t[1])
+    return f'ite({t[1].t!r},{repr_tree(t[2])},{repr_tree(t[3])})'
+
+
 def digest(obj):
     return hashlib.sha256(inspect.getsource(obj).encode()).hexdigest()[:16]
 
@@ -47,11 +60,15 @@ def generate():
     class Cfg: poi_index = 0
     class Pdf: config = Cfg()
 
+    # both fits are uninterpreted functions *of the POI bounds they are handed* (and the conditional one of the value it is asked to hold):
+    # which bounds and which μ the code passes on is part of the translation
     def fit(data, pdf, init, bounds, fixed, return_fitted_val=False, **kw):
-        return np.asarray([var('muhat')], dtype=object), var('vfree')
+        lo, hi = bounds[pdf.config.poi_index]
+        return np.asarray([Sym.app('muhatOf', lo, hi)], dtype=object), Sym.app('vfreeOf', lo, hi)
 
     def fixed_poi_fit(mu, data, pdf, init, bounds, fixed, return_fitted_val=False, **kw):
-        return np.asarray([Sym.app('fixedPar', mu)], dtype=object), Sym.app('fixedVal', mu)
+        lo, hi = bounds[pdf.config.poi_index]
+        return np.asarray([Sym.app('fixedPar', mu)], dtype=object), Sym.app('fixedValOf', lo, hi, mu)
     of, ofx = tsm.fit, tsm.fixed_poi_fit
     oget, oasimov = utilsmod.get_test_stat, calcmod.generate_asimov_data
     try:
@@ -60,9 +77,9 @@ def generate():
         # ---- test statistics
         for name in ['qmu', 'qmu_tilde', 'tmu', 'tmu_tilde', 'q0']:
             f = getattr(tsm, name)
-            tree = sx.paths(lambda: f(var('mu'), None, Pdf(), [1.0], [(-5.0, 10.0)], [False]))
-            out.append(f'/-- `test_statistics.py::{name}` (source sha256 {digest(f)}…): value, with `fit` returning `(muhat, vfree)` and\n`fixed_poi_fit μ` the objective value `fixedVal μ` -/')
-            out.append(f'def {name} (fixedVal : K → K) (vfree muhat mu : K) : K :=\n{sx.lean_tree(tree)}\n')
+            tree = sx.paths(lambda: f(var('mu'), None, Pdf(), [1.0], [(var('blo'), var('bhi'))], [False]))
+            out.append(f'/-- `test_statistics.py::{name}` (source sha256 {digest(f)}…): value, called with POI bounds `(blo, bhi)`; `fit` handed the POI\nbounds `(l, h)` returns `(muhatOf l h, vfreeOf l h)`, `fixed_poi_fit μ` handed them returns the objective value `fixedValOf l h μ` -/')
+            out.append(f'def {name} (fixedValOf : K → K → K → K) (vfreeOf muhatOf : K → K → K) (blo bhi mu : K) : K :=\n{sx.lean_tree(merge(tree))}\n')
         # ---- asymptotic calculator
         for ts in ['q', 'qtilde', 'q0']:
             calls = []
